@@ -306,6 +306,55 @@ def bool_check():
     return n, out
 
 
+MIXED_GRAMMAR = """
+Model: vals+=Val;
+Val: 'i' v=INT | 'b' v=BOOL | 'd' v=ID | 's' v=STRING | 'n' v=NUMBER | 'f' v=FLOAT | 'x' v=STRICTFLOAT | 't' v=BASETYPE;
+"""
+# (rule letter, lexeme, expected value) - the value depends on the rule that matched the text, never on what
+# the same text meant elsewhere in this or an earlier model
+MIXED = [('i', '1', 1), ('b', '1', True), ('n', '1', 1), ('f', '1', 1.0), ('s', '"1"', '1'), ('t', '1', 1),
+         ('i', '0', 0), ('b', '0', False), ('f', '0', 0.0), ('b', 'true', True), ('d', 'true', 'true'),
+         ('b', 'false', False), ('d', 'false', 'false'), ('t', 'false', False), ('s', '"false"', 'false'),
+         ('n', '2.5', 2.5), ('s', '"2.5"', '2.5'), ('x', '2.5', 2.5), ('f', '7', 7.0), ('i', '7', 7), ('s', "'7'", '7'),
+         ('n', '7', 7), ('t', '7', 7), ('t', '"7"', '7'), ('x', '1e1', 10.0), ('f', '1e1', 10.0), ('d', 'e1', 'e1')]
+
+
+def mixed_types_scenario():
+    """concrete supplement: the same text under different base types, in one model and across the loads of
+    one metamodel, under every metamodel configuration"""
+    from textx import metamodel_from_str
+    out, n = [], 0
+    for cfg in MM_CONFIGS:
+        cfg2 = {k: v for k, v in cfg.items() if not k.startswith('_')}
+        mm = metamodel_from_str(MIXED_GRAMMAR, **cfg2)
+        for a, b in itertools.permutations(MIXED, 2):
+            if a[1].strip('"\'') != b[1].strip('"\''):
+                continue
+            n += 1
+            text = '%s %s %s %s' % (a[0], a[1], b[0], b[1])
+            try:
+                vals = [x.v for x in mm.model_from_str(text).vals]
+            except Exception as e:
+                out.append({'kind': 'mixed', 'text': text, 'cfg': cfg2, 'detail': '%s: %s' % (type(e).__name__, e)})
+                continue
+            exp = [a[2], b[2]]
+            if vals != exp or [type(v) for v in vals] != [type(v) for v in exp]:
+                out.append({'kind': 'mixed', 'text': text, 'cfg': cfg2,
+                            'detail': 'values %r, expected %r (type-strict)' % (vals, exp)})
+        # across loads of the same metamodel
+        for a in MIXED:
+            n += 1
+            try:
+                v = mm.model_from_str('%s %s' % (a[0], a[1])).vals[0].v
+            except Exception as e:
+                out.append({'kind': 'mixed', 'text': '%s %s' % a[:2], 'cfg': cfg2, 'detail': '%s: %s' % (type(e).__name__, e)})
+                continue
+            if v != a[2] or type(v) is not type(a[2]):
+                out.append({'kind': 'mixed', 'text': '%s %s' % a[:2], 'cfg': cfg2,
+                            'detail': 'after other loads of the metamodel: %r, expected %r' % (v, a[2])})
+    return n, out[:5]
+
+
 def main():
     L = live()
     import textx.metamodel as MM
@@ -365,6 +414,11 @@ def main():
     chk.cov['traces_validated_against_impl'] += nb
     for v in bout:
         chk.violation('%s' % v, v)
+    nm, mout = mixed_types_scenario()
+    chk.cov['traces_validated_against_impl'] += nm
+    chk.cov['bounds']['concrete_mixed_type_texts'] = nm
+    for v in mout:
+        chk.violation('%s' % v, v)
     chk.cov['distinct_nontrivial'] = nontrivial
     chk.cov['obligations'] = obligations
     chk.cov['discharged'] = holds
@@ -381,5 +435,8 @@ def replay(data):
         return replay_string(data['s'], data['quote'], data.get('cont', ''))
     if data.get('kind') == 'bool':
         n, out = bool_check()
+        return bool(out), out
+    if data.get('kind') == 'mixed':
+        n, out = mixed_types_scenario()
         return bool(out), out
     return replay_number(data['kind'], data['rule'], data['literal'], data['follow'])
